@@ -523,5 +523,44 @@ def c17_coating_media(ctx):
     from .C17 import coating_media as _r
     return _r(ctx)
 
-RULES = [c17_coating_media, derived_sync_rule, c12_arg_names, no_stale, wmw_intensity, write_shape, beer_lambert, lost_write, aperture,
+def index_edit(ctx):
+    """an index variable / perturbation reads n(wavelength) of the medium and
+    writes it back through Optic.set_index.  If set_index installs a new
+    wavelength-independent, lossless IdealMaterial, reading and writing back
+    the SAME value already changes the lens (dispersion and absorption are
+    gone), and reset / undo cannot bring the glass back."""
+    from ..match import find
+    P = ctx.P
+    res = Result('INDEX-EDIT', 'writing back the index that was read leaves '
+                 'the medium as it was (dispersion, absorption): index '
+                 'variables are faithful handles, reset and undo restore the '
+                 'glass')
+    si = P.func('Optic.set_index')
+    uv = P.func('IndexVariable.update_value')
+    gv = P.func('IndexVariable.get_value')
+    for f in (si, uv, gv):
+        res.saw(f)
+    through = any(isinstance(c, ast.Call) and isinstance(c.func, ast.Attribute)
+                  and c.func.attr == 'set_index' for c in ast.walk(uv.node))
+    ideal = [c for c in ast.walk(si.node) if isinstance(c, ast.Call) and
+             unparse(c.func) == 'IdealMaterial']
+    keeps = any(isinstance(x, ast.Attribute) and x.attr in ('material_post',
+                                                            'material_pre')
+                and isinstance(x.ctx, ast.Load) for c in ideal
+                for x in ast.walk(c))
+    if through and ideal and not keeps:
+        res.fail(ctx.finding(
+            'INDEX-EDIT', si, ideal[0],
+            'Optic.set_index replaces the medium by IdealMaterial(n=value, '
+            'k=0) built from the number alone; IndexVariable.update_value '
+            '(optimiser start point, undo, perturbation reset) goes through '
+            'it, so a catalogue glass loses its dispersion and absorption at '
+            'the first evaluation and is never restored',
+            construct='index edit replaces the medium'))
+    else:
+        res.ok('index edits keep the dispersion and absorption of the medium')
+    return res
+
+
+RULES = [index_edit, c17_coating_media, derived_sync_rule, c12_arg_names, no_stale, wmw_intensity, write_shape, beer_lambert, lost_write, aperture,
          coating_pair, record_intensity]
